@@ -582,5 +582,82 @@ theorem Snk.flush_faultFree {k k' : Snk} {r : Bool} (hb : k.faultFree) (h : k.fl
   obtain ⟨_, _, hws, hfs⟩ := Snk.flush_frame h
   exact ⟨(Snk.flush_benign hb.benign h).1, Snk.faultFree_of_suffix hb ⟨[], by rw [hws]; rfl⟩ hfs⟩
 
-end Kestrel
+/-! ### the fuel bounds of the model are never the reason for a failure (ALL scripts) -/
 
+/-- `Src.fuel` suffices for every script: more fuel changes nothing -/
+theorem Src.readExact_fuel_succ : ∀ (fuel : Nat) (s : Src) (need : Nat), s.fuel need ≤ fuel →
+    Src.readExact (fuel+1) s need = Src.readExact fuel s need := by
+  intro fuel
+  induction fuel with
+  | zero => intro s need h; simp only [Src.fuel] at h; omega
+  | succ f ih =>
+    intro s need h
+    simp only [Src.fuel] at h
+    conv => lhs; unfold Src.readExact
+    conv => rhs; unfold Src.readExact
+    by_cases hn : need = 0
+    · simp only [hn, if_true]
+    · simp only [if_neg hn]
+      rcases hrd : s.read need with ⟨r, s1⟩
+      cases r with
+      | err => rfl
+      | interrupted =>
+        obtain ⟨_, _, _, hsc⟩ := Src.read_interrupted hrd
+        have hl : s.script.length = s1.script.length + 1 := by rw [hsc]; rfl
+        simp only
+        exact ih s1 need (by simp only [Src.fuel]; omega)
+      | got b =>
+        obtain ⟨m, _, _, _, _, _, _, _, pre, hsc⟩ := Src.read_got hrd
+        have hl : s1.script.length ≤ s.script.length := by rw [hsc, List.length_append]; omega
+        simp only
+        by_cases hb : b.length = 0
+        · simp only [hb, if_true]
+        · simp only [if_neg hb]
+          rw [ih s1 (need - b.length) (by simp only [Src.fuel]; omega)]
+
+theorem Src.readExact_fuel_irrel (s : Src) (need : Nat) : ∀ (fuel : Nat), s.fuel need ≤ fuel →
+    Src.readExact fuel s need = Src.readExact (s.fuel need) s need := by
+  intro fuel h
+  induction fuel with
+  | zero => have : s.fuel need = 0 := by omega
+            rw [this]
+  | succ f ih =>
+    rcases Nat.lt_or_ge (s.fuel need) (f+1) with hl | hl
+    · rw [Src.readExact_fuel_succ f s need (by omega), ih (by omega)]
+    · have : s.fuel need = f + 1 := by omega
+      rw [this]
+
+/-- `Snk.wfuel` suffices for every script -/
+theorem Snk.writeAll_fuel_succ (at_ : Nat × Nat) : ∀ (fuel : Nat) (k : Snk) (b : Bytes), k.wfuel b ≤ fuel →
+    Snk.writeAll at_ (fuel+1) k b = Snk.writeAll at_ fuel k b := by
+  intro fuel
+  induction fuel with
+  | zero => intro k b h; simp only [Snk.wfuel] at h; omega
+  | succ f ih =>
+    intro k b h
+    simp only [Snk.wfuel] at h
+    conv => lhs; unfold Snk.writeAll
+    conv => rhs; unfold Snk.writeAll
+    by_cases hb : b.isEmpty = true
+    · simp only [hb, if_true]
+    · simp only [hb, Bool.false_eq_true, if_false]
+      have hbl : b.length ≠ 0 := by
+        intro h0; exact hb (by rw [List.eq_nil_of_length_eq_zero h0]; rfl)
+      rcases hw : k.write at_ b with ⟨r, k1⟩
+      cases r with
+      | err => rfl
+      | interrupted =>
+        obtain ⟨_, _, _, _, hws⟩ := Snk.write_interrupted hw
+        have hl : k.ws.length = k1.ws.length + 1 := by rw [hws]; rfl
+        simp only
+        exact ih k1 b (by simp only [Snk.wfuel]; omega)
+      | wrote n =>
+        obtain ⟨_, _, _, _, _, ⟨pre, hws⟩, _, _⟩ := Snk.write_wrote hw
+        have hl : k1.ws.length ≤ k.ws.length := by rw [hws, List.length_append]; omega
+        simp only
+        by_cases hn : n = 0
+        · simp only [hn, if_true]
+        · simp only [if_neg hn]
+          exact ih k1 (b.drop n) (by simp only [Snk.wfuel, List.length_drop]; omega)
+
+end Kestrel
